@@ -330,7 +330,13 @@ def texts(big=True, surrogates=True):
     lit = st.text(alphabet=alph, max_size=30).map(lambda s: ["str", s])
     rep = st.tuples(st.text(alphabet=_ALPH, min_size=1, max_size=3), _lengths(big)).map(
         lambda t: ["strrep", t[0], t[1]])
-    return st.one_of(lit, lit, rep)
+    if not surrogates:
+        return st.one_of(lit, lit, rep)
+    # lone surrogates by construction (st.text over a mixed alphabet yields them about once in a thousand texts)
+    plain = st.text(alphabet=_ALPH, max_size=5)
+    surr = st.tuples(plain, st.lists(st.integers(0xd800, 0xdfff).map(chr), min_size=1, max_size=3), plain).map(
+        lambda t: ["str", t[0] + "".join(t[1]) + t[2]])
+    return st.one_of(lit, lit, rep, surr)
 
 
 def scalars(big=True, surrogates=True):
